@@ -176,6 +176,16 @@ def replace_funcname(source: str, name: str):
     return "\n".join(lines) + "\n"
 
 
+def quote_docstring(docstr: str):
+    """Return a triple-quoted string literal that evaluates to ``docstr``"""
+    docstr = docstr.replace("\\", "\\\\")
+    docstr = docstr.replace("\r", "\\r").replace("\0", "\\x00")
+    if docstr[-1:] == '"':
+        docstr = docstr[:-1] + '\\"'
+    docstr = docstr.replace('"""', '\\"\\"\\"')
+    return '"""' + docstr + '"""'
+
+
 def replace_docstring(source: str, docstr: str, insert_indents=False):
     """Replace docstring"""
     # lines = source.splitlines()
@@ -191,7 +201,7 @@ def replace_docstring(source: str, docstr: str, insert_indents=False):
         raise RuntimeError("FunctionDef not found")
 
     first_stmt = node.body[0]
-    docstr = '"""' + docstr + '"""'
+    docstr = quote_docstring(docstr)
     prev_token = atok.tokens[first_stmt.first_token.index - 1]
 
     if prev_token.type == token.INDENT:     # compound statements
